@@ -137,6 +137,22 @@ func progLines(prog []Op) []string {
 	return lines
 }
 
+// respKind: the branch of the Model a response stands for — its first word, with the second for the
+// kinds whose second word is a status (err notfound, status 404, cond 412, ok ran).
+func respKind(m string) string {
+	f := strings.Fields(m)
+	if len(f) == 0 {
+		return "(empty)"
+	}
+	switch f[0] {
+	case "ok", "err", "status", "cond", "matched":
+		if len(f) > 1 {
+			return f[0] + " " + f[1]
+		}
+	}
+	return f[0]
+}
+
 func firstDiff(prog []Op, impl, model []string, acc Accept) int {
 	for i := range prog {
 		if !acc(prog[i], impl[i], model[i]) {
@@ -237,7 +253,7 @@ func RunPrograms(scenario string, seed uint64, progs [][]Op, configs []Config, a
 			line := op.Line()
 			m := models[i][j]
 			rep.OpKinds[firstTok(line, 2)]++
-			rep.RespKinds[firstTok(m, 2)]++
+			rep.RespKinds[respKind(m)]++
 			if m == "bad-op" {
 				rep.ModelErrors = append(rep.ModelErrors, "model rejected line: "+line)
 				continue
